@@ -568,7 +568,9 @@ impl C14 {
                     // allocation through the host API (defvar)
                     let mut ok = 0usize;
                     for i in 0..h + 2 {
-                        let r = catch(|| xs.defvar(Xstr::from(format!("api{}", i)), Cell::Int(i as i128)));
+                        // named and nameless cells (the latter is what host objects such as mapped files use)
+                        let anonymous = (i + lim) % 3 == 2;
+                        let r = catch(|| if anonymous { xs.defvar_anonymous(Cell::Int(i as i128)) } else { xs.defvar(Xstr::from(format!("api{}", i)), Cell::Int(i as i128)) });
                         let len = xs.verif_dump().heap.len();
                         if len > lim.max(b) {
                             return self.v(obs, idx, "heap:over-limit", format!("defvar x{} on a heap of {} cells", h + 2, b), format!("heap limit {}: heap holds {} cells after defvar #{}", lim, len, i));
